@@ -12,18 +12,21 @@ import (
 	"simlal/sim/actors"
 
 	"github.com/q191201771/lal/pkg/base"
+	"github.com/q191201771/lal/pkg/gb28181"
 	"github.com/q191201771/lal/pkg/hls"
 	"github.com/q191201771/lal/pkg/httpflv"
 	"github.com/q191201771/lal/pkg/httpts"
 	"github.com/q191201771/lal/pkg/logic"
 	"github.com/q191201771/lal/pkg/rtmp"
+	"github.com/q191201771/lal/pkg/rtsp"
 )
 
 const (
-	PortRtmp = 1935
-	PortHttp = 8080
-	PortApi  = 8083
-	PortRtsp = 5544
+	PortRtmp   = 1935
+	PortHttp   = 8080
+	PortApi    = 8083
+	PortRtsp   = 5544
+	PortWsRtsp = 5566
 )
 
 // LalConf is the subset of lal's configuration the plans randomise.
@@ -46,6 +49,7 @@ type LalConf struct {
 	RtspWaitKey      bool            `json:"rtsp_wait_key"`
 	RtspAuth         bool            `json:"rtsp_auth"`
 	RtspAuthMethod   int             `json:"rtsp_auth_method"`
+	WsRtspEnable     bool            `json:"ws_rtsp,omitempty"`
 	ApiEnable        bool            `json:"api"`
 	RecordFlv        bool            `json:"record_flv"`
 	RecordTs         bool            `json:"record_ts"`
@@ -84,7 +88,7 @@ func (c LalConf) JSON() []byte {
 			"gop_num": c.TsGop, "single_gop_max_frame_num": c.TsGopCap},
 		"rtsp": map[string]interface{}{"enable": c.RtspEnable, "addr": fmt.Sprintf(":%d", PortRtsp), "rtsps_enable": false,
 			"out_wait_key_frame_flag": c.RtspWaitKey, "auth_enable": c.RtspAuth, "auth_method": c.RtspAuthMethod,
-			"username": "simuser", "password": "simpass", "ws_rtsp_enable": false, "ws_rtsp_addr": ":5566"},
+			"username": "simuser", "password": "simpass", "ws_rtsp_enable": c.WsRtspEnable, "ws_rtsp_addr": fmt.Sprintf(":%d", PortWsRtsp)},
 		"record": map[string]interface{}{"enable_flv": c.RecordFlv, "flv_out_path": "/simrec/flv/",
 			"enable_mpegts": c.RecordTs, "mpegts_out_path": "/simrec/ts/"},
 		"relay_push":        map[string]interface{}{"enable": len(c.PushAddrs) > 0, "addr_list": c.PushAddrs},
@@ -199,6 +203,9 @@ func StartWorld(k *sim.Kernel, conf LalConf, mods ...logic.ModOption) *World {
 		q = 1024
 	}
 	rtmp.ZzSetWChanSize(q)
+	rtsp.ZzSetWChanSize(q)
+	rtsp.ZzResetUdpPool()
+	gb28181.ZzResetUdpPool()
 	httpflv.SubSessionWriteChanSize = q
 	httpts.SubSessionWriteChanSize = q
 	w.Srv = logic.NewLalServer(all...)
